@@ -46,6 +46,9 @@ pub struct C14Case {
 	pub watches: Vec<u16>,
 	/// explicit ignore files (contents)
 	pub explicit_ignores: Vec<Vec<String>>,
+	/// ignore files of the tree itself (indices into `igfiles`) that are ALSO passed as explicit ignore files
+	#[serde(default)]
+	pub explicit_in_tree: Vec<u16>,
 }
 
 const META: &[&str] = &[".git", ".hg", ".bzr", "_darcs", ".fossil-settings", ".svn", ".pijul"];
@@ -163,11 +166,31 @@ fn materialise(c: &C14Case, reverse: bool) -> Tree {
 		std::fs::write(&p, lines.join("\n") + "\n").unwrap();
 		explicit.push(p);
 	}
+	for i in &c.explicit_in_tree {
+		if c.igfiles.is_empty() {
+			break;
+		}
+		let f = &c.igfiles[usize::from(*i) % c.igfiles.len()];
+		// (a bare `*` in a file loaded before the walk would match the origin itself: the case left open)
+		let usable = matches!(&f.content, Content::Lines(l) if !l.iter().any(|x| x == "*"));
+		let p = join(&origin, &f.dir).join(IGNAMES[f.kind as usize % 3].0);
+		if usable && is_nonempty_file(&p) && !explicit.contains(&p) && read_first_spec_matches(&p, f) {
+			explicit.push(p);
+		}
+	}
 	Tree {
 		_tmp: tmp,
 		origin,
 		explicit,
 		all_dirs: dirs.into_iter().collect(),
+	}
+}
+
+/// The file on disk holds this spec's lines (with duplicate specs for one path the first listed wins).
+fn read_first_spec_matches(p: &Path, f: &IgSpec) -> bool {
+	match &f.content {
+		Content::Lines(l) => std::fs::read_to_string(p).map_or(false, |t| t == l.join("\n") + "\n"),
+		_ => false,
 	}
 }
 
@@ -380,15 +403,17 @@ fn strategy() -> BoxedStrategy<C14Case> {
 				proptest::collection::vec(0u8..7, 0..2),
 				prop_oneof![3 => Just(vec![]), 1 => proptest::collection::vec(any::<u16>(), 1..3)],
 				proptest::collection::vec(proptest::collection::vec(dpat, 1..3), 0..2),
+				prop_oneof![2 => Just(vec![]), 1 => proptest::collection::vec(any::<u16>(), 1..3)],
 			)
 		})
-		.prop_map(|(dirs, igfiles, origin_vcs, meta_decoys, watches, explicit_ignores)| C14Case {
+		.prop_map(|(dirs, igfiles, origin_vcs, meta_decoys, watches, explicit_ignores, explicit_in_tree)| C14Case {
 			dirs,
 			igfiles,
 			origin_vcs,
 			meta_decoys,
 			watches,
 			explicit_ignores,
+			explicit_in_tree,
 		})
 		.boxed()
 }
@@ -400,7 +425,7 @@ pub fn check(e: &Engine) {
 		"discovery",
 		LegOpts::det(
 			e.tier.pick(3_000, 60_000),
-			"generated trees (depth <=3, names from a 3-name alphabet often containing test/tests), 1-6 ignore files (.ignore/.gitignore/.hgignore; non-empty, empty, or a directory of that name) with directory-oriented patterns incl. negations, origin-level VCS files, VCS metadata dirs with decoys, explicit watch lists and explicit ignore files; result compared as a set with an independent walker; same tree created in the opposite order must give the same set; non-trivial = pruned subtree containing an ignore file, prefix-sibling pair, or explicit watch list",
+			"generated trees (depth <=3, names from a 3-name alphabet often containing test/tests), 1-6 ignore files (.ignore/.gitignore/.hgignore; non-empty, empty, or a directory of that name) with directory-oriented patterns incl. negations, origin-level VCS files, VCS metadata dirs with decoys, explicit watch lists and explicit ignore files (separate files, and a third of the time also ignore files of the tree itself passed as explicit ones); result compared as a set with an independent walker; same tree created in the opposite order must give the same set; non-trivial = pruned subtree containing an ignore file, prefix-sibling pair, or explicit watch list",
 		),
 		&strategy,
 		&run,
